@@ -302,3 +302,15 @@ func HConstructAPI(n int, which int) {
 	}
 	vCover("checked")
 }
+
+// HOpenerAlpha: opener + n bytes over a small alphabet of bytes that matter to the comment / markup classifiers
+// (NUL, a letter, terminators, back-tick): reaches longer bodies than fully free tails can.
+func HOpenerAlpha(n int, which int, ctx int) {
+	pre := [...]string{"<![CDATA[", "<!--", "<%", "<?", "<!", "<!doctype", "</", "<a ", "<a b=", "<a b='", "<a b=\"", "<a b=`", "&#", "&#x", "<a href=&#", "<a/", "<a b=c/", "<a href=&#x", "<a href=\"&#x6", "<a style=", "<a attributename=", "<!--[if", "<?xml", "<!entity", "<a href=  java"}[which]
+	body := ""
+	for i := 0; i < n; i++ {
+		body += vB(vByteIn("\x00m>-!`[ "))
+	}
+	ok := isXSS(pre+body, ctx)
+	vObserveBool("verdict", ok)
+}
